@@ -1,0 +1,41 @@
+use super::World;
+use crate::{
+    registry::Registry,
+    verif::{
+        Dump,
+        SlotDump,
+    },
+};
+
+impl<R, Resources> World<R, Resources>
+where
+    R: Registry,
+{
+    /// Read-only structural dump of the entity bookkeeping.
+    #[must_use]
+    pub fn verif_dump(&self) -> Dump {
+        let (archetypes, table_len, type_id_lookup, foreign_lookup) = self.archetypes.verif_dump();
+        Dump {
+            archetypes,
+            table_len,
+            type_id_lookup,
+            foreign_lookup,
+            slots: self
+                .entity_allocator
+                .slots
+                .iter()
+                .map(|slot| SlotDump {
+                    generation: slot.generation,
+                    location: slot.location.map(|location| {
+                        (
+                            location.identifier.verif_addr(),
+                            location.index,
+                        )
+                    }),
+                })
+                .collect(),
+            free: self.entity_allocator.free.iter().copied().collect(),
+            len: self.len,
+        }
+    }
+}
